@@ -126,6 +126,13 @@ class ExprMixin(object):
             setattr(self, name, value)
 
 
+def _operand(x, fmt):
+    # a unary expression used as an operand keeps its own parentheses, so that the rendering
+    # denotes the same expression tree under Python's operator precedence
+    s = fmt(x)
+    return "(%s)" % (s,) if isinstance(x, UniExpr) else s
+
+
 class UniExpr(ExprMixin):
 
     def __init__(self, op, operand):
@@ -133,10 +140,10 @@ class UniExpr(ExprMixin):
         self.operand = operand
 
     def __repr__(self):
-        return "%s %r" % (opnames[self.op], self.operand)
+        return "%s %s" % (opnames[self.op], _operand(self.operand, repr))
 
     def __str__(self):
-        return "%s %s" % (opnames[self.op], self.operand)
+        return "%s %s" % (opnames[self.op], _operand(self.operand, str))
 
     def __call__(self, obj, *args):
         operand = self.operand(obj) if callable(self.operand) else self.operand
@@ -151,10 +158,10 @@ class BinExpr(ExprMixin):
         self.rhs = rhs
 
     def __repr__(self):
-        return "(%r %s %r)" % (self.lhs, opnames[self.op], self.rhs)
+        return "(%s %s %s)" % (_operand(self.lhs, repr), opnames[self.op], _operand(self.rhs, repr))
 
     def __str__(self):
-        return "(%s %s %s)" % (self.lhs, opnames[self.op], self.rhs)
+        return "(%s %s %s)" % (_operand(self.lhs, str), opnames[self.op], _operand(self.rhs, str))
 
     def __call__(self, obj, *args):
         lhs = self.lhs(obj) if callable(self.lhs) else self.lhs
